@@ -66,6 +66,10 @@ func runC11(c *sim.Ctx, t *testing.T) {
 	n := 1 + c.Intn(8, "nexec")
 	if c.Chance(2, 3, "few") {
 		n = 1 + c.Intn(2, "nexec2")
+	} else if c.Chance(1, 8, "many") {
+		// a burst: more executions in flight than any plausible bound on concurrent
+		// runtimes - none of them may wait for another beyond its own deadline
+		n = 34 + c.Intn(8, "nexec3")
 	}
 	deadlines := []time.Duration{-time.Millisecond, time.Millisecond, 10 * time.Millisecond, 50 * time.Millisecond, 300 * time.Millisecond}
 	ticks := []time.Duration{time.Millisecond, 3 * time.Millisecond, 7 * time.Millisecond}
@@ -105,6 +109,9 @@ func runC11(c *sim.Ctx, t *testing.T) {
 	interruptAt := map[string]int{} // exec task -> log length when its watcher was released after ictx.Done()
 	leak := sim.Bubble(c, t, func(s *sim.Sched) {
 		s.MaxSteps = 6000
+		if n > 30 {
+			s.MaxSteps = 40000
+		}
 		s.Horizon = 5 * time.Second
 		lg = sim.NewLog()
 		s.OnRelease = func(task, site string) {
@@ -309,6 +316,18 @@ func runC11(c *sim.Ctx, t *testing.T) {
 				}
 			}
 			continue
+		}
+		// prompt: an endless script under a deadline is back within a tick of it (simulated
+		// time only moves in ticks), however many other executions are under way
+		if sc.endless && !p.guardLoop && p.cancelAt == 0 && !c.Sched.Exhausted {
+			limit := p.deadline
+			if limit < 0 {
+				limit = 0
+			}
+			if o.ended > limit+2*p.tickD {
+				c.Violate("timeout:late", "%s: returned at %v, its deadline was %v (%d executions in this run)", desc, o.ended, p.deadline, n)
+			}
+			c.Count("deadlines_checked_for_promptness")
 		}
 		if !sc.endless {
 			// a terminating script may finish before anybody stops it; one that needs 5 ticks of
